@@ -33,7 +33,8 @@ def make_env_cls():
   class Scripted(Env):
     """Deterministic scripted environment; member identity and schedule come from the reset key."""
 
-    def __init__(self, table, gain=1.0, by_key=True, done_dtype=jp.float32, latch=False):
+    def __init__(self, table, gain=1.0, by_key=True, done_dtype=jp.float32, latch=False, reset_reward=0.0):
+      self.reset_reward = reset_reward   # an environment may report a reward / metrics already at reset
       self.table = jp.asarray(np.asarray(table, np.int32))  # [NS, T]
       self.sys = ScriptSys(gain=jp.float32(gain))
       self.by_key = by_key
@@ -46,6 +47,8 @@ def make_env_cls():
       # 'blow' is 0 while the episode runs and +inf in the terminal state (a simulation that blew up and terminated)
       ps = {'t': jp.int32(0), 'm': m, 'acc': a0, 'blow': jp.float32(0)}
       obs = jp.array([0.0, 0.0, 0.0]).at[1].set(a0[0]).at[2].set(a0[1]) + jp.array([1000.0, 0, 0]) * m
+      if self.reset_reward:
+        return State(ps, obs, jp.float32(self.reset_reward), jp.zeros((), self.done_dtype), {'m': jp.float32(1.5)}, {})
       return State(ps, obs, jp.float32(0), jp.zeros((), self.done_dtype), {}, {})
 
     def step(self, state, action):
@@ -358,6 +361,40 @@ def eager_unbatched(ctx, r):
   ctx.extra['eager_unbatched_steps'] = n
 
 
+def eval_reset_metrics(ctx, r):
+  """EvalWrapper accumulates what the STEPS of the first episode report: an environment that already reports a reward or
+  metrics at reset does not start the totals from those."""
+  import jax
+  import jax.numpy as jp
+  from brax.envs.wrappers import training
+  Scripted, _ = make_env_cls()
+  for R in (1, 2):
+    B, L = 3, 6
+    env = training.EvalWrapper(training.wrap(Scripted(np.zeros((B, 8), np.int32), reset_reward=0.5), episode_length=L, action_repeat=R))
+    keys = jp.asarray(np.stack([np.full(B, 12345, np.uint32), np.arange(B, dtype=np.uint32)], 1))
+    st = jax.jit(env.reset)(keys)
+    step = jax.jit(env.step)
+    em = st.info['eval_metrics']
+    got0 = {k: np.asarray(v).tolist() for k, v in em.episode_metrics.items()}
+    want_r, k = np.zeros(B), 0
+    bad = None
+    if any(np.any(np.asarray(v) != 0) for v in em.episode_metrics.values()):
+      bad = f'at reset the evaluation totals are {got0}, not zero'
+    for i in range(3):
+      st = step(st, jp.ones((B, 1)) * float(i % 2))
+      want_r += np.asarray(st.reward)
+      k += 1
+      em = st.info['eval_metrics']
+      gr, gm = np.asarray(em.episode_metrics['reward']), np.asarray(em.episode_metrics['m'])
+      if bad is None and (np.max(np.abs(gr - want_r)) > 1e-6 or np.max(np.abs(gm - 1.5 * k)) > 1e-6):
+        bad = f'after {k} steps the evaluation totals are reward {gr.tolist()} m {gm.tolist()}; the steps reported {want_r.tolist()} and {1.5 * k}'
+    ctx.traces += 1
+    ctx.case(key=('eval_reset_metrics', R), nontrivial=True)
+    if bad:
+      ctx.violation(f'EvalWrapper (action_repeat {R}) on an environment that reports reward 0.5 and a metric at reset: {bad}',
+                    {'action_repeat': R, 'reset_reward': 0.5}, {'call': 'EvalWrapper', 'predicate': 'reset_metrics'})
+
+
 def run(ctx):
   shim.install()
   r = core.rng(ctx)
@@ -416,6 +453,7 @@ def run(ctx):
     ev_cases += [(r.randint(1, 8), r.randint(1, 3), tuple(r.choice(scheds))) for _ in range(25)]
   evaluator_cases(ctx, r, ev_cases)
   eager_unbatched(ctx, r)
+  eval_reset_metrics(ctx, r)
   ctx.exhaustive = True
   ctx.extra['exhaustive_scope'] = f'all 2^{slen} schedules x L in 1..{maxl} x R in 1..{maxr} x 2 wrapper orders'
 
